@@ -92,8 +92,8 @@ func (m *modeStore) GetChunk(id desync.ChunkID) (*desync.Chunk, error) {
 	return nil, errors.New("i/o error in the served store")
 }
 func (m *modeStore) HasChunk(desync.ChunkID) (bool, error) { return true, nil }
-func (m *modeStore) Close() error                            { return nil }
-func (m *modeStore) String() string                          { return "mode" }
+func (m *modeStore) Close() error                          { return nil }
+func (m *modeStore) String() string                        { return "mode" }
 
 func classErr(err error) string {
 	var mi desync.ChunkMissing
@@ -287,7 +287,89 @@ func main() {
 						}
 					}
 					w.Emit(trace.M("ev", "matrix", "op", "put", "clientcomp", clientComp, "servercomp", serverComp, "upstreamcomp", upComp, "verify", verify, "res", res, "dataok", dataok))
+					// upload chunks that were read from a store of either format (they carry their stored bytes)
+					for _, srcComp := range []bool{true, false} {
+						srcDir := filepath.Join(*dir, "src")
+						os.RemoveAll(srcDir)
+						os.MkdirAll(srcDir, 0755)
+						src, _ := desync.NewLocalStore(srcDir, desync.StoreOptions{Uncompressed: !srcComp})
+						d3 := bytes.Repeat([]byte(fmt.Sprintf("third chunk %v ", srcComp)), 40+r.Intn(20))
+						src.StoreChunk(desync.NewChunk(d3))
+						c3, gerr := src.GetChunk(desync.NewChunk(d3).ID())
+						if gerr != nil {
+							panic(gerr)
+						}
+						err = cl.StoreChunk(c3)
+						res, dataok = classErr(err), true
+						if err == nil {
+							c4, gerr := up.GetChunk(desync.NewChunk(d3).ID())
+							if gerr != nil {
+								dataok = false
+							} else {
+								got, derr := c4.Data()
+								dataok = derr == nil && bytes.Equal(got, d3)
+							}
+							if !dataok {
+								res = "okbad"
+							}
+						}
+						w.Emit(trace.M("ev", "matrix", "op", "putfrom", "srccomp", srcComp, "clientcomp", clientComp, "servercomp", serverComp, "upstreamcomp", upComp, "verify", verify, "res", res, "dataok", dataok))
+						n++
+					}
 					hs.Close()
+					// a damaged upstream object, read by the server without verification (the chunk server's default)
+					for _, damage := range []string{"garbage", "empty", "truncated"} {
+						ddir := filepath.Join(*dir, "updamaged")
+						os.RemoveAll(ddir)
+						os.MkdirAll(ddir, 0755)
+						upv, _ := desync.NewLocalStore(ddir, desync.StoreOptions{Uncompressed: !upComp})
+						upv.StoreChunk(desync.NewChunk(data))
+						var objPath string
+						filepath.Walk(ddir, func(p string, info os.FileInfo, err error) error {
+							if err == nil && !info.IsDir() {
+								objPath = p
+							}
+							return nil
+						})
+						ob, _ := os.ReadFile(objPath)
+						switch damage {
+						case "garbage":
+							ob = []byte("this is neither a zstd frame nor the chunk")
+						case "empty":
+							ob = nil
+						case "truncated":
+							ob = ob[:len(ob)/2]
+						}
+						os.WriteFile(objPath, ob, 0644)
+						upd, _ := desync.NewLocalStore(ddir, desync.StoreOptions{Uncompressed: !upComp, SkipVerify: true})
+						hd := httptest.NewServer(desync.NewHTTPHandler(upd, false, true, conv, ""))
+						hdu, _ := url.Parse(hd.URL + "/")
+						cld, _ := desync.NewRemoteHTTPStore(hdu, desync.StoreOptions{Uncompressed: !clientComp, SkipVerify: !verify, ErrorRetry: 1})
+						c5, err := cld.GetChunk(chunk.ID())
+						res = classErr(err)
+						if err == nil {
+							d5, derr := c5.Data() // a non-verifying client decodes lazily: the failure surfaces here
+							if derr != nil {
+								res = "error"
+							} else if !bytes.Equal(d5, data) {
+								res = "okbad"
+							}
+						}
+						// what the server itself answers (the client may turn a wrong answer into an error of its own)
+						raw := 0
+						cid := chunk.ID()
+						ext := ".cacnk"
+						if !serverComp {
+							ext = ""
+						}
+						if resp, rerr := http.Get(hd.URL + "/" + cid.String()[:4] + "/" + cid.String() + ext); rerr == nil {
+							raw = resp.StatusCode
+							resp.Body.Close()
+						}
+						w.Emit(trace.M("ev", "matrixdamaged", "damage", damage, "clientcomp", clientComp, "servercomp", serverComp, "upstreamcomp", upComp, "verify", verify, "res", res, "rawstatus", raw))
+						hd.Close()
+						n++
+					}
 					n += 2
 				}
 			}
